@@ -77,6 +77,23 @@ int main(int argc, char** argv)
                     { if (!r.empty()) r += ","; r += std::to_string(m.level) + ":" + std::to_string(m.code); }
                 return r.empty() ? std::string("-") : r;
             };
+            if (cmd == "PP2" || cmd == "PPX")
+            {
+                // the same VM has preprocessed something before: PP2 the same file, PPX another text that defines macros of common
+                // names.  What is reported is the LATER result only (and the messages of that run only).
+                if (cmd == "PP2") { auto first = vm.rt->parser_preprocessor().preprocess(*vm.rt, maintext, pi); (void)first; }
+                else
+                {
+                    sqf::runtime::fileio::pathinfo other{ std::string(sdir + "/other__.sqf"), std::string("/v/other__.sqf") };
+                    auto first = vm.rt->parser_preprocessor().preprocess(*vm.rt,
+                        "#define FOO 1\n#define T_(x) [x]\n#define A B\n#define M1 2\n#define e(X,Y) X\nFOO T_(2) A M1 e(3,4) __COUNTER__ __LINE__\n", other);
+                    (void)first;
+                }
+                vm.lg.msgs.clear();
+                auto pp = vm.rt->parser_preprocessor().preprocess(*vm.rt, maintext, pi);
+                if (!pp.has_value()) return "FAIL\t" + codes();
+                return "OK\t" + hex(replace_all(*pp, sdir, "/T")) + "\t" + codes();
+            }
             if (cmd == "PP")
             {
                 auto pp = vm.rt->parser_preprocessor().preprocess(*vm.rt, maintext, pi);
@@ -115,7 +132,7 @@ int main(int argc, char** argv)
                 return stage + "\t" + (ms.empty() ? "-" : ms);
             }
             return std::string("BADCMD");
-        }, (cmd == "PP" ? 1500 : 5000) * VH_SLOW, VH_MEM_MB, 64);
+        }, (cmd == "PP" ? 1500 : (cmd == "RUN" ? 5000 : 3000)) * VH_SLOW, VH_MEM_MB, 64);
         std::cout << res << "\n";
     }
     fs::remove_all(dir);
